@@ -243,7 +243,7 @@ func TestCheck(t *testing.T) {
 		// a second file: content of A under B's name, swaps
 		two := append([]scen.FileSpec{}, files...)
 		two = append(two, scen.FileSpec{Name: "b.dat", Size: sh.L/2 + 3, Kind: "random", Seed: uint64(900 + si)})
-		for _, e := range []scen.Damage{{Op: "copy", File: 0, Other: 1}, {Op: "copy", File: 1, Other: 0}, {Op: "swap", File: 0, Other: 1}} {
+		for _, e := range []scen.Damage{{Op: "copy", File: 0, Other: 1}, {Op: "copy", File: 1, Other: 0}, {Op: "swap", File: 0, Other: 1}, {Op: "move", File: 0, Other: 1}, {Op: "move", File: 1, Other: 0}} {
 			idx++
 			if cfg.Mine(idx) {
 				do(Case{Files: two, Slice: sh.S, Edit: e, G: 2})
@@ -267,7 +267,10 @@ func TestCheck(t *testing.T) {
 		if rapid.Bool().Draw(rt, "two") {
 			files = append(files, scen.FileSpec{Name: "sub/b.dat", Size: rapid.IntRange(1, 6*S).Draw(rt, "L2"), Kind: "random", Seed: rapid.Uint64Range(0, 1<<20).Draw(rt, "seed2")})
 		}
-		e := scen.GenDamage(rt, len(files), L, S, []string{"insert", "remove", "insert", "remove", "copy", "swap"})
+		if len(files) == 2 && rapid.Bool().Draw(rt, "three") {
+			files = append(files, scen.FileSpec{Name: "c c.dat", Size: rapid.IntRange(1, 4*S).Draw(rt, "L3"), Kind: "random", Seed: rapid.Uint64Range(0, 1<<20).Draw(rt, "seed3")})
+		}
+		e := scen.GenDamage(rt, len(files), L, S, []string{"insert", "remove", "insert", "remove", "copy", "swap", "move", "move"})
 		if !do(Case{Files: files, Slice: S, Edit: e, G: rapid.IntRange(1, 4).Draw(rt, "g")}) {
 			rt.Fatalf("C16 failed")
 		}
